@@ -1,9 +1,97 @@
-/- driver handler of the `names` stream (line protocol, see Main.lean) -/
+/- driver handler of the `names` stream (line protocol, see Main.lean)
+
+  names valid <json>                               -> ok true|false       (non-strings: false)
+  names create [arn,part,svc,region,acct,type|null,res] -> ok "<arn>"
+  names parse "<arn>"                              -> ok [arn,part,svc,region,acct,type|null,res] | err
+  names mintsm "<region>" "<account>" "<name>"     -> ok "<arn>"
+  names mint <site> "<smArn>" "<name>"             -> ok "<arn>" | err
+  names split "<execArn>"                          -> ok ["<smArn>","<name>"] | err
+  names derive <site> "<smArn>" "<name>" "<execArn>" -> ok ["<smArn>","<name>"] | err
+  names notify "<execArn>"                         -> ok ["<account>","<region>"] | err
+  names forbidden                                  -> ok ["c",…]          (the validator's class)
+  names maxlen                                     -> ok <n>
+-/
 import AslModel.Drv.Util
+import AslModel.Names
 namespace Asl.Drv.Names
-open Asl
+open Asl Asl.Drv
+
+def rdStr (s : String) : Option Str :=
+  match rd s with
+  | some (.str p) => some p
+  | _ => none
+
+def optStr : Option Str → Json
+  | some t => .str t
+  | none => .null
+
+def mintSite : String → Option MintSite
+  | "apiStartExecution" => some .apiStartExecution
+  | "apiStartSyncExecution" => some .apiStartSyncExecution
+  | "engineStartExecution" => some .engineStartExecution
+  | "childExecution" => some .childExecution
+  | _ => none
+
+def deriveSite : String → Option DeriveSite
+  | "recordCreation" => some .recordCreation
+  | "startNotification" => some .startNotification
+  | "expressDetail" => some .expressDetail
+  | "restartRecovery" => some .restartRecovery
+  | "recoveredNotification" => some .recoveredNotification
+  | "timeoutBackstop" => some .timeoutBackstop
+  | _ => none
+
+def showPair : Option (Str × Str) → String
+  | some (a, b) => "ok\t" ++ js (.arr [.str a, .str b])
+  | none => "err"
+
+def showStr : Option Str → String
+  | some a => "ok\t" ++ js (.str a)
+  | none => "err"
 
 def handle : List String → String
+  | ["valid", j] =>
+    match rd j with
+    | some (.str s) => if validName s then "ok\ttrue" else "ok\tfalse"
+    | some _ => "ok\tfalse"
+    | none => "unsupported"
+  | ["create", j] =>
+    match rd j with
+    | some (.arr [.str a, .str p, .str sv, .str rg, .str ac, .str t, .str r]) =>
+      showStr (some (createArn ⟨a, p, sv, rg, ac, some t, r⟩))
+    | some (.arr [.str a, .str p, .str sv, .str rg, .str ac, .null, .str r]) =>
+      showStr (some (createArn ⟨a, p, sv, rg, ac, none, r⟩))
+    | _ => "unsupported"
+  | ["parse", j] =>
+    match rdStr j with
+    | some s =>
+      match parseArn s with
+      | some a => "ok\t" ++ js (.arr [.str a.arn, .str a.partition, .str a.service, .str a.region,
+          .str a.account, optStr a.resourceType, .str a.resource])
+      | none => "err"
+    | none => "unsupported"
+  | ["mintsm", rg, ac, n] =>
+    match rdStr rg, rdStr ac, rdStr n with
+    | some rg, some ac, some n => showStr (some (mintStateMachineArn rg ac n))
+    | _, _, _ => "unsupported"
+  | ["mint", site, sm, n] =>
+    match mintSite site, rdStr sm, rdStr n with
+    | some st, some sm, some n => showStr (mint st sm n)
+    | _, _, _ => "unsupported"
+  | ["split", e] =>
+    match rdStr e with
+    | some e => showPair (splitDerive e)
+    | none => "unsupported"
+  | ["derive", site, sm, n, e] =>
+    match deriveSite site, rdStr sm, rdStr n, rdStr e with
+    | some st, some sm, some n, some e => showPair (derive st ⟨sm, n, e⟩)
+    | _, _, _, _ => "unsupported"
+  | ["notify", e] =>
+    match rdStr e with
+    | some e => showPair (notifyAccountRegion e)
+    | none => "unsupported"
+  | ["forbidden"] => "ok\t" ++ jsOrd (.arr (forbiddenNameChars.map fun c => .str [c]))
+  | ["maxlen"] => "ok\t" ++ js (.num maxNameLength)
   | _ => "bad-op"
 
 end Asl.Drv.Names
